@@ -2,6 +2,11 @@ package broker
 
 import (
 	"fmt"
+	"strings"
+
+	"github.com/mdzio/go-mqtt/verifrt/vsched"
+	"verif/engine/explore"
+	"verif/models/refcodec"
 
 	"verif/harness/core"
 )
@@ -31,6 +36,10 @@ func C02(c *core.Ctx) {
 	d1, d2 := 6, 4
 	if c.Thorough() {
 		d1, d2 = 8, 5
+	}
+	c02pinned(c)
+	if c.HasViolation() || c.Expired() {
+		return
 	}
 	spec := &HistSpec{Name: "receiver-qos", Ops: ops, Depth: d1, Dedup: true, Comps: comps, Prefix: prefix, ExtraKey: wrapKey}
 	spec.Search(c)
@@ -161,3 +170,79 @@ func c02burst(c *core.Ctx, comps map[string]bool) {
 }
 
 func init() { core.Register("C02", C02) }
+
+// c02pinned: a packet identifier used again while the message of its completed
+// exchange is still held back.  A sender has two QoS 2 exchanges open
+// (identifiers 1 and 2) and releases the second first; the broker completes it
+// (PUBCOMP 2) and holds its message back behind exchange 1.  The sender, who is
+// free to use identifier 2 again, starts a new exchange with it (PUBLISH
+// without DUP, PUBREC, PUBREL, PUBCOMP), then releases exchange 1.  Three
+// messages are handed on, in that order.  (Before fix 32 the library took the new
+// PUBLISH for a duplicate of the held message and "B" was lost.)
+func c02pinned(c *core.Ctx) {
+	name := "pinned: identifier 2 used again while the message of its completed exchange is held back behind exchange 1"
+	if c.Replay != nil && c.Replay.Scenario != name {
+		return
+	}
+	if c.Replay == nil && c.NShards > 1 && c.Shard != 0 {
+		return
+	}
+	var got []string
+	body := func() {
+		got = nil
+		t := newTD()
+		p := t.connect("P", 0, 65535, false)
+		s := t.connect("S", 0, 65535, false)
+		t.subscribe("S", "t", 2)
+		if vsched.Failed() {
+			return
+		}
+		step := func(pk *refcodec.Packet, want byte) bool {
+			p.rc.Send(pk)
+			t.settleExcept()
+			ans := p.rc.Take()
+			if len(ans) != 1 || ans[0].Type != want || ans[0].ID != pk.ID {
+				vsched.Failf("%s was answered by %s", pk, Describe(ans))
+				return false
+			}
+			return true
+		}
+		pub := func(id uint16, pl string) *refcodec.Packet {
+			return &refcodec.Packet{Type: refcodec.PUBLISH, Topic: []byte("t"), QoS: 2, ID: id, Payload: []byte(pl)}
+		}
+		rel := func(id uint16) *refcodec.Packet { return &refcodec.Packet{Type: refcodec.PUBREL, ID: id} }
+		if !step(pub(1, "one"), refcodec.PUBREC) || !step(pub(2, "A"), refcodec.PUBREC) || !step(rel(2), refcodec.PUBCOMP) ||
+			!step(pub(2, "B"), refcodec.PUBREC) || !step(rel(2), refcodec.PUBCOMP) || !step(rel(1), refcodec.PUBCOMP) {
+			return
+		}
+		for _, m := range publishesOn(s.rc.Take(), "t") {
+			got = append(got, string(m.Payload))
+		}
+		if t.badStream() {
+			return
+		}
+	}
+	res := explore.RunDefault(body)
+	c.Rep.Executions++
+	c.Rep.Evaluations++
+	c.Rep.States++
+	c.Rep.Transitions += int64(len(res.Points))
+	if c.Replay != nil {
+		fmt.Println("replay:", name, "\n  handed on:", got, res.Failures, firstLine(res.Crash))
+		c.Rep.Scenarios++
+		return
+	}
+	v := ""
+	key := "C02 pinned :: "
+	switch {
+	case res.Status == vsched.StCrash:
+		v = "a library goroutine panicked: " + firstLine(res.Crash)
+	case len(res.Failures) > 0:
+		v = res.Failures[0]
+	case strings.Join(got, ",") != "one,A,B":
+		v = fmt.Sprintf("three QoS 2 exchanges were completed (\"one\", \"A\", \"B\"); handed on: %v", got)
+	}
+	if v != "" {
+		c.Violate(key+violClass(v), core.Replay{Scenario: name, Message: v, Log: res.Log, Crash: res.Crash})
+	}
+}
